@@ -117,6 +117,16 @@ impl Thread {
 
                     let mut el = Element::new(push_pop_type, pointer, in_expression_evaluation);
 
+                    // Not 0 (a function that has printed nothing yet): at a save point a
+                    // function has printed text, unless the save says otherwise.
+                    if push_pop_type == PushPopType::Function {
+                        el.function_start_in_output_stream = j_element_obj
+                            .get("fnStart")
+                            .and_then(|i| i.as_i64())
+                            .and_then(|i| i32::try_from(i).ok())
+                            .unwrap_or(-1);
+                    }
+
                     if let Some(temps) = j_element_obj.get("temp").and_then(|temp| temp.as_object())
                     {
                         el.temporary_variables = json_read::jobject_to_hashmap_values(temps)?;
@@ -167,6 +177,15 @@ impl Thread {
             }
             el_map.insert("exp".to_owned(), json!(el.in_expression_evaluation));
             el_map.insert("type".to_owned(), json!(el.push_pop_type as u32));
+
+            // Only for a function that is still trimming the whitespace at its start
+            if el.push_pop_type == PushPopType::Function && el.function_start_in_output_stream != -1
+            {
+                el_map.insert(
+                    "fnStart".to_owned(),
+                    json!(el.function_start_in_output_stream),
+                );
+            }
 
             if !el.temporary_variables.is_empty() {
                 el_map.insert(
